@@ -1,20 +1,570 @@
-(* C16 — proofs about the default-port model V1.v. *)
+(* C16 — proofs about the default-port model V1.v: state invariant, per-subscription
+   refinement to Sub1 (labels of other subscriptions / actors erased), and the
+   property theorems obtained through it. *)
 From Coq Require Import List NArith Bool Arith Lia.
-From RV Require Import OutPort.Spec OutPort.V1.
+From RV Require Import OutPort.Spec OutPort.SpecProofs OutPort.V1.
 Import ListNotations.
+
+(* ---------- lists ---------- *)
+Lemma skipn_skipn' : forall A y x (l : list A), skipn x (skipn y l) = skipn (y + x) l.
+Proof.
+  induction y as [|y IH]; intros x l; cbn; [reflexivity|].
+  destruct l; [destruct x; reflexivity|]. apply IH.
+Qed.
+
+Lemma nth_error_skipn' : forall A d i (l : list A), nth_error (skipn d l) i = nth_error l (d + i).
+Proof.
+  induction d as [|d IH]; intros i l; cbn; [reflexivity|].
+  destruct l; [destruct i; reflexivity|]. apply IH.
+Qed.
+
+Lemma skipn_nth_cons : forall A n (l : list A) x, nth_error l n = Some x -> skipn n l = x :: skipn (S n) l.
+Proof.
+  induction n as [|n IH]; intros l x H; destruct l; cbn in *; try discriminate.
+  - inversion H; reflexivity.
+  - apply IH. assumption.
+Qed.
+
+Lemma skipn_app_le : forall A n (l1 l2 : list A), n <= length l1 -> skipn n (l1 ++ l2) = skipn n l1 ++ l2.
+Proof.
+  intros. rewrite skipn_app. replace (n - length l1) with 0 by lia. reflexivity.
+Qed.
+
+Lemma tagged_app : forall s l1 l2, tagged s (l1 ++ l2) = tagged s l1 ++ tagged s l2.
+Proof. intros. unfold tagged. rewrite filter_app, map_app. reflexivity. Qed.
+
+Lemma tagged_one_same : forall s r, tagged s [(s, r)] = [r].
+Proof. intros. unfold tagged. cbn. rewrite N.eqb_refl. reflexivity. Qed.
+
+Lemma tagged_one_other : forall s s' r, N.eqb s' s = false -> tagged s [(s', r)] = [].
+Proof. intros. unfold tagged. cbn. rewrite H. reflexivity. Qed.
+
+Lemma tagged_cons_same : forall s r q, tagged s ((s, r) :: q) = r :: tagged s q.
+Proof. intros. unfold tagged. cbn. rewrite N.eqb_refl. reflexivity. Qed.
+
+Lemma tagged_cons_other : forall s s' r q, N.eqb s' s = false -> tagged s ((s', r) :: q) = tagged s q.
+Proof. intros. unfold tagged. cbn. rewrite H. reflexivity. Qed.
+
+Arguments tagged : simpl never.
+
+Lemma updf_same : forall A (f : N -> A) k v, updf f k v k = v.
+Proof. intros. unfold updf. rewrite N.eqb_refl. reflexivity. Qed.
+
+Lemma updf_other : forall A (f : N -> A) k v x, N.eqb x k = false -> updf f k v x = f x.
+Proof. intros. unfold updf. rewrite H. reflexivity. Qed.
 
 Section P.
   Variable C : Type.
   Variable cv : C -> N -> option N.
   Variable cap : nat.
 
-  Lemma publish_nonblocking : forall (st : state C) m,
-    exists st', step C cv cap st (LPublish m) = Some st'
+  Notation state := (state C).
+  Notation step := (step C cv cap).
+  Notation run := (run C cv cap).
+  Notation label := (label C).
+
+  Lemma publish_nonblocking : forall (st : state) m,
+    exists st', step st (LPublish m) = Some st'
       /\ tasks C st' = tasks C st /\ actors C st' = actors C st
       /\ order C st' = order C st /\ handles C st' = handles C st /\ rxcnt C st' = rxcnt C st.
   Proof.
-    intros st m. unfold step. destruct (Nat.eqb (rxcnt C st) 0).
+    intros st m. unfold V1.step. destruct (Nat.eqb (rxcnt C st) 0).
     - exists st. repeat split; reflexivity.
     - eexists. split; [reflexivity|]. cbn. repeat split; reflexivity.
+  Qed.
+
+  Lemma run_app : forall l1 l2 (st : state),
+    run st (l1 ++ l2) = match run st l1 with Some st' => run st' l2 | None => None end.
+  Proof.
+    induction l1 as [|l t IH]; intros l2 st; cbn; [reflexivity|].
+    destruct (step st l); [apply IH|reflexivity].
+  Qed.
+
+  (* ---------- state invariant ---------- *)
+  Definition live (tk : N -> option (sub C)) (s : N) : bool :=
+    match tk s with
+    | Some sb => match s_pc C sb with PDone => false | _ => true end
+    | None => false
+    end.
+
+  Record VInv (st : state) : Prop := mkVInv {
+    v_len : length (log C st) = tail C st;
+    v_ring : ring C st = lastn cap (log C st);
+    v_cur : forall s sb, tasks C st s = Some sb -> s_cursor C sb <= tail C st;
+    v_tag : forall a s r, In (s, r) (a_mbox (actors C st a) ++ a_got (actors C st a)) ->
+              exists sb, tasks C st s = Some sb /\ s_actor C sb = a;
+    v_cnt : rxcnt C st = length (filter (live (tasks C st)) (order C st));
+    v_ord : forall s sb, tasks C st s = Some sb -> In s (order C st);
+    v_ord2 : forall s, In s (order C st) -> tasks C st s <> None;
+    v_nd : NoDup (order C st) }.
+
+  Lemma vinv_init : VInv (init C).
+  Proof.
+    constructor; cbn; auto; try discriminate.
+    - intros a s r [].
+    - constructor.
+  Qed.
+
+  Lemma filter_ext_in' : forall A (p q : A -> bool) l, (forall x, In x l -> p x = q x) -> filter p l = filter q l.
+  Proof.
+    induction l as [|x t IH]; intros H; cbn; [reflexivity|].
+    rewrite (H x (or_introl eq_refl)), IH; [reflexivity|]. intros y Hy. apply H. right. assumption.
+  Qed.
+
+  Lemma live_upd_other : forall tk s v x, x <> s -> live (updf tk s v) x = live tk x.
+  Proof.
+    intros. unfold live. rewrite updf_other; [reflexivity|]. apply N.eqb_neq. assumption.
+  Qed.
+
+  (* updating a task without changing its liveness keeps the count *)
+  Lemma count_same : forall tk s sb l, live tk s = live (updf tk s (Some sb)) s ->
+    length (filter (live (updf tk s (Some sb))) l) = length (filter (live tk) l).
+  Proof.
+    intros tk s sb l H. f_equal. apply filter_ext_in'. intros x _.
+    destruct (N.eq_dec x s) as [->|Hne]; [symmetry; exact H|apply live_upd_other; exact Hne].
+  Qed.
+
+  Lemma count_dead : forall tk s sb l, NoDup l -> In s l -> live tk s = true ->
+    live (updf tk s (Some sb)) s = false ->
+    S (length (filter (live (updf tk s (Some sb))) l)) = length (filter (live tk) l).
+  Proof.
+    intros tk s sb. induction l as [|x t IH]; intros Hnd Hin Hl Hd; [destruct Hin|].
+    inversion Hnd as [|? ? Hnotin Hnd']; subst. cbn.
+    destruct (N.eq_dec x s) as [->|Hne].
+    - rewrite Hl, Hd. cbn. f_equal. f_equal. apply filter_ext_in'. intros y Hy.
+      apply live_upd_other. intros ->. contradiction.
+    - destruct Hin as [->|Hin]; [contradiction|].
+      rewrite (live_upd_other tk s (Some sb) x Hne).
+      destruct (live tk x); cbn; rewrite <- (IH Hnd' Hin Hl Hd); reflexivity.
+  Qed.
+
+  Lemma live_pos : forall (st : state) s, VInv st -> live (tasks C st) s = true -> rxcnt C st <> 0.
+  Proof.
+    intros st s I H. rewrite (v_cnt _ I).
+    assert (Hin : In s (filter (live (tasks C st)) (order C st))).
+    { apply filter_In. split; [|exact H]. unfold live in H.
+      destruct (tasks C st s) as [sb|] eqn:E; [|discriminate]. eapply v_ord; eassumption. }
+    destruct (filter (live (tasks C st)) (order C st)); [destruct Hin|cbn; lia].
+  Qed.
+
+  Lemma lastn_push : forall (l : list N) m, lastn cap (lastn cap l ++ [m]) = lastn cap (l ++ [m]).
+  Proof.
+    intros l m. unfold lastn. rewrite !app_length, skipn_length. cbn [length].
+    destruct (Nat.le_gt_cases (length l) cap) as [Hle|Hgt].
+    - replace (length l - cap) with 0 by lia. rewrite skipn_O.
+      replace (length l - 0 + 1 - cap) with (length l + 1 - cap) by lia. reflexivity.
+    - remember (length l - cap) as d eqn:Hd.
+      replace (length l - d + 1 - cap) with 1 by lia.
+      replace (length l + 1 - cap) with (d + 1) by lia.
+      rewrite <- (skipn_skipn' _ d 1 (l ++ [m])).
+      rewrite (skipn_app_le _ d l [m]) by lia. reflexivity.
+  Qed.
+
+  Lemma NoDup_snoc : forall A (l : list A) x, NoDup l -> ~ In x l -> NoDup (l ++ [x]).
+  Proof.
+    induction l as [|y t IH]; intros x Hnd Hn; cbn.
+    - constructor; [intros []|constructor].
+    - inversion Hnd; subst. constructor.
+      + intros Hin. apply in_app_or in Hin. destruct Hin as [Hin|[->|[]]]; [contradiction|].
+        apply Hn. left. reflexivity.
+      + apply IH; [assumption|]. intros Hin. apply Hn. right. assumption.
+  Qed.
+
+  Lemma vinv_set_task : forall (st : state) s sb sb', VInv st ->
+    tasks C st s = Some sb -> s_actor C sb' = s_actor C sb -> s_cursor C sb' <= tail C st ->
+    s_pc C sb <> PDone -> s_pc C sb' <> PDone ->
+    VInv (set_task C st s sb').
+  Proof.
+    intros st s sb sb' I E Ha Hc Hp Hp'. destruct I as [Il Ir Ic It In_ Io Io2 Ind].
+    constructor; cbn; auto.
+    - intros x sbx Ex. unfold updf in Ex. destruct (N.eqb x s); [inversion Ex; subst; assumption|eauto].
+    - intros a x r Hin. destruct (It a x r Hin) as (sbx & Ex & Ax).
+      unfold updf. destruct (N.eqb x s) eqn:Exs.
+      + apply N.eqb_eq in Exs. subst x. rewrite E in Ex. inversion Ex; subst.
+        exists sb'. split; [reflexivity|assumption].
+      + exists sbx. split; assumption.
+    - rewrite In_. symmetry. apply count_same. unfold live. rewrite updf_same, E.
+      destruct (s_pc C sb); destruct (s_pc C sb'); congruence.
+    - intros x sbx Ex. unfold updf in Ex. destruct (N.eqb x s) eqn:Exs; [|eauto].
+      apply N.eqb_eq in Exs. subst x. eauto.
+    - intros x Hin. unfold updf. destruct (N.eqb x s); [discriminate|auto].
+  Qed.
+
+  Lemma vinv_set_actor_sub : forall (st : state) a al mb gt, VInv st ->
+    (forall it, In it (mb ++ gt) -> In it (a_mbox (actors C st a) ++ a_got (actors C st a))) ->
+    VInv (set_actor C st a (mkActor al mb gt)).
+  Proof.
+    intros st a al mb gt I Hsub. destruct I as [Il Ir Ic It In_ Io Io2 Ind].
+    constructor; cbn; auto.
+    intros a' x r Hin. unfold updf in Hin. destruct (N.eqb a' a) eqn:Ea.
+    - apply N.eqb_eq in Ea. subst a'. cbn in Hin. apply (It a x r). apply Hsub. assumption.
+    - apply (It a' x r). assumption.
+  Qed.
+
+  Lemma vinv_set_actor_push : forall (st : state) s sb r, VInv st ->
+    tasks C st s = Some sb ->
+    VInv (set_actor C st (s_actor C sb)
+            (mkActor true (a_mbox (actors C st (s_actor C sb)) ++ [(s, r)])
+                     (a_got (actors C st (s_actor C sb))))).
+  Proof.
+    intros st s sb r I E. destruct I as [Il Ir Ic It In_ Io Io2 Ind].
+    constructor; cbn; auto.
+    intros a' x r' Hin. unfold updf in Hin. destruct (N.eqb a' (s_actor C sb)) eqn:Ea.
+    - apply N.eqb_eq in Ea. subst a'. cbn in Hin.
+      apply in_app_or in Hin. destruct Hin as [Hin|Hin].
+      + apply in_app_or in Hin. destruct Hin as [Hin|[Hin|[]]].
+        * apply (It _ x r'). apply in_or_app. left. assumption.
+        * inversion Hin; subst. exists sb. split; [assumption|reflexivity].
+      + apply (It _ x r'). apply in_or_app. right. assumption.
+    - apply (It a' x r'). assumption.
+  Qed.
+
+  Lemma vinv_step : forall (st st' : state) l, VInv st -> step st l = Some st' -> VInv st'.
+  Proof.
+    intros st st' l I H. destruct l; cbn in H.
+    - (* LPublish *)
+      destruct (Nat.eqb (rxcnt C st) 0); inversion H; subst; clear H; [assumption|].
+      destruct I as [Il Ir Ic It In_ Io Io2 Ind]. constructor; cbn; auto.
+      + rewrite app_length. cbn. lia.
+      + unfold push. rewrite Ir. apply lastn_push.
+      + intros s sb E. specialize (Ic s sb E). lia.
+    - (* LSubscribe *)
+      destruct (tasks C st s) eqn:E; [discriminate|]. inversion H; subst; clear H.
+      destruct I as [Il Ir Ic It In_ Io Io2 Ind].
+      assert (Hfresh : ~ In s (order C st)) by (intros Hin; exact (Io2 s Hin E)).
+      constructor; cbn; auto.
+      + intros x sbx Ex. unfold updf in Ex. destruct (N.eqb x s); [inversion Ex; subst; cbn; lia|eauto].
+      + intros a' x r Hin. destruct (It a' x r Hin) as (sbx & Ex & Ax).
+        unfold updf. destruct (N.eqb x s) eqn:Exs.
+        * apply N.eqb_eq in Exs. subst x. congruence.
+        * exists sbx. split; assumption.
+      + rewrite filter_app, app_length. cbn. unfold live at 2. rewrite updf_same. cbn.
+        rewrite In_. rewrite Nat.add_1_r. f_equal. f_equal. apply filter_ext_in'.
+        intros x Hx. symmetry. apply live_upd_other. intros ->. contradiction.
+      + intros x sbx Ex. unfold updf in Ex. apply in_or_app. destruct (N.eqb x s) eqn:Exs.
+        * apply N.eqb_eq in Exs. subst x. right. left. reflexivity.
+        * left. eauto.
+      + intros x Hin. unfold updf. destruct (N.eqb x s) eqn:Exs; [discriminate|].
+        apply in_app_or in Hin. destruct Hin as [Hin|[->|[]]]; [auto|].
+        rewrite N.eqb_refl in Exs. discriminate.
+      + apply NoDup_snoc; assumption.
+    - (* LRecv *)
+      destruct (tasks C st s) as [sb|] eqn:E; [|discriminate].
+      destruct (s_pc C sb) eqn:P; try discriminate.
+      destruct (Nat.eqb (tail C st - s_cursor C sb) 0) eqn:B; [discriminate|].
+      apply Nat.eqb_neq in B.
+      destruct (Nat.leb (tail C st - s_cursor C sb) cap).
+      + destruct (nth_error (ring C st) (length (ring C st) - (tail C st - s_cursor C sb))); [|discriminate].
+        inversion H; subst; clear H.
+        eapply vinv_set_task; eauto; cbn; try congruence. lia.
+      + inversion H; subst; clear H.
+        eapply vinv_set_task; eauto; cbn; try congruence. lia.
+    - (* LCast *)
+      destruct (tasks C st s) as [sb|] eqn:E; [|discriminate].
+      destruct (s_pc C sb) eqn:P; try discriminate.
+      destruct (cv (s_conv C sb) m) as [r|].
+      + destruct (a_alive (actors C st (s_actor C sb))) eqn:Al; inversion H; subst; clear H.
+        * pose proof (v_cur _ I _ _ E) as Hc.
+          assert (I1 : VInv (set_task C st s (mkSub C (s_actor C sb) (s_conv C sb) (s_cursor C sb) PRecv))).
+          { eapply vinv_set_task; eauto; cbn; congruence. }
+          pose proof (vinv_set_actor_push _ s (mkSub C (s_actor C sb) (s_conv C sb) (s_cursor C sb) PRecv) r I1) as I2.
+          cbn in I2. rewrite updf_same in I2. specialize (I2 eq_refl). exact I2.
+        * destruct I as [Il Ir Ic It In_ Io Io2 Ind]. constructor; cbn; auto.
+          -- intros x sbx Ex. unfold updf in Ex. destruct (N.eqb x s); [inversion Ex; subst; cbn; eauto|eauto].
+          -- intros a' x r' Hin. destruct (It a' x r' Hin) as (sbx & Ex & Ax).
+             unfold updf. destruct (N.eqb x s) eqn:Exs.
+             ++ apply N.eqb_eq in Exs. subst x. rewrite E in Ex. inversion Ex; subst.
+                eexists. split; [reflexivity|reflexivity].
+             ++ exists sbx. split; assumption.
+          -- rewrite In_.
+             rewrite <- (count_dead (tasks C st) s (mkSub C (s_actor C sb) (s_conv C sb) (s_cursor C sb) PDone) (order C st)); auto.
+             ++ eauto.
+             ++ unfold live. rewrite E, P. reflexivity.
+             ++ unfold live. rewrite updf_same. reflexivity.
+          -- intros x sbx Ex. unfold updf in Ex. destruct (N.eqb x s) eqn:Exs; [|eauto].
+             apply N.eqb_eq in Exs. subst x. eauto.
+          -- intros x Hin. unfold updf. destruct (N.eqb x s); [discriminate|auto].
+      + inversion H; subst; clear H. pose proof (v_cur _ I _ _ E) as Hc.
+        eapply vinv_set_task; eauto; cbn; congruence.
+    - (* LHandle *)
+      destruct (a_alive (actors C st a)); [|discriminate].
+      destruct (a_mbox (actors C st a)) as [|[s' r] q] eqn:M; [discriminate|].
+      destruct (N.eqb s' s); [|discriminate]. inversion H; subst; clear H.
+      apply vinv_set_actor_sub; [assumption|]. rewrite M. intros it Hin.
+      apply in_app_or in Hin. destruct Hin as [Hin|Hin].
+      + right. apply in_or_app. left. assumption.
+      + apply in_app_or in Hin. destruct Hin as [Hin|[<-|[]]].
+        * right. apply in_or_app. right. assumption.
+        * left. reflexivity.
+    - (* LStop *)
+      destruct (a_alive (actors C st a)); [|discriminate]. inversion H; subst; clear H.
+      apply vinv_set_actor_sub; [assumption|]. intros it Hin. apply in_or_app. right. assumption.
+  Qed.
+
+  (* ---------- refinement: every subscription, seen alone, runs Sub1 ---------- *)
+  Definition okfor (s a : N) (c : C) (st : state) (ls : list label) : Prop :=
+    match tasks C st s with
+    | Some sb => s_actor C sb = a /\ s_conv C sb = c
+    | None => forall a' c', conv_of C s ls = Some (a', c') -> a' = a /\ c' = c
+    end.
+
+  Notation cstep1 := (cstep (Some cap)).
+  Notation crun1 := (crun (Some cap)).
+
+  Lemma absv_eq_tasks_actors : forall s a (st st' : state),
+    tasks C st' s = tasks C st s -> actors C st' a = actors C st a -> log C st' = log C st ->
+    absv C s a st' = absv C s a st.
+  Proof. intros s a st st' Ht Ha Hl. unfold absv. rewrite Ht, Ha, Hl. reflexivity. Qed.
+
+  Lemma sim_step : forall s a c (st st' : state) l t,
+    VInv st -> okfor s a c st (l :: t) -> step st l = Some st' ->
+    crun1 (cv c) (absv C s a st) (proj C s a l) = Some (absv C s a st') /\ okfor s a c st' t.
+  Proof.
+    intros s a c st st' l t I Ok H. destruct l as [m|s' a' c'|s'|s'|a' s'|a']; cbn in H.
+    - (* LPublish *)
+      cbn [proj]. destruct (Nat.eqb (rxcnt C st) 0) eqn:R; inversion H; subst; clear H.
+      + split; [|exact Ok]. apply Nat.eqb_eq in R. cbn. unfold absv.
+        destruct (tasks C st' s) as [sb|] eqn:E; [|reflexivity].
+        destruct (s_pc C sb) eqn:P; cbn; try reflexivity;
+          (exfalso; apply (live_pos st' s I); [unfold live; rewrite E, P; reflexivity|exact R]).
+      + split; [|exact Ok]. cbn. unfold absv. cbn.
+        destruct (tasks C st s) as [sb|] eqn:E; [|reflexivity].
+        pose proof (v_cur _ I _ _ E) as Hc. rewrite <- (v_len _ I) in Hc.
+        destruct (s_pc C sb) eqn:P; cbn; try reflexivity; rewrite skipn_app_le by exact Hc; reflexivity.
+    - (* LSubscribe *)
+      destruct (tasks C st s') eqn:E; [discriminate|]. inversion H; subst; clear H.
+      cbn [proj]. destruct (N.eqb s' s) eqn:Es.
+      + apply N.eqb_eq in Es. subst s'. unfold okfor in Ok. rewrite E in Ok. cbn in Ok. rewrite N.eqb_refl in Ok.
+        destruct (Ok a' c' eq_refl) as [-> ->]. split.
+        * cbn. unfold absv. rewrite E. cbn. rewrite updf_same. cbn.
+          rewrite <- (v_len _ I), skipn_all. reflexivity.
+        * unfold okfor. cbn. rewrite updf_same. cbn. split; reflexivity.
+      + split.
+        * cbn. f_equal. symmetry. apply absv_eq_tasks_actors; cbn; auto.
+          apply updf_other. apply N.eqb_neq. apply N.eqb_neq in Es. congruence.
+        * unfold okfor in *. cbn. rewrite updf_other by (apply N.eqb_neq; apply N.eqb_neq in Es; congruence).
+          destruct (tasks C st s); [exact Ok|]. cbn in Ok. rewrite Es in Ok. exact Ok.
+    - (* LRecv *)
+      destruct (tasks C st s') as [sb|] eqn:E; [|discriminate].
+      destruct (s_pc C sb) eqn:P; try discriminate.
+      destruct (Nat.eqb (tail C st - s_cursor C sb) 0) eqn:B; [discriminate|].
+      apply Nat.eqb_neq in B.
+      cbn [proj]. destruct (N.eqb s' s) eqn:Es.
+      + apply N.eqb_eq in Es. subst s'.
+        assert (Ok' : forall sb', s_actor C sb' = s_actor C sb -> s_conv C sb' = s_conv C sb ->
+                      okfor s a c (set_task C st s sb') t).
+        { intros sb' Ha Hc. unfold okfor in *. cbn. rewrite updf_same. rewrite E in Ok. rewrite Ha, Hc. exact Ok. }
+        pose proof (v_cur _ I _ _ E) as Hc. pose proof (v_len _ I) as Hl.
+        destruct (Nat.leb (tail C st - s_cursor C sb) cap) eqn:Le.
+        * apply Nat.leb_le in Le.
+          destruct (nth_error (ring C st) (length (ring C st) - (tail C st - s_cursor C sb))) as [m|] eqn:Nth; [|discriminate].
+          inversion H; subst; clear H. split; [|apply Ok'; reflexivity].
+          assert (Hm : nth_error (log C st) (s_cursor C sb) = Some m).
+          { rewrite (v_ring _ I) in Nth. unfold lastn in Nth. rewrite skipn_length, nth_error_skipn' in Nth.
+            rewrite <- Nth. f_equal. lia. }
+          assert (Lg : lagging (Some cap) (m :: skipn (S (s_cursor C sb)) (log C st)) = false).
+          { unfold lagging. cbn [length]. rewrite skipn_length. apply Nat.ltb_ge. lia. }
+          assert (A0 : absv C s a st = mkCore AIdle (m :: skipn (S (s_cursor C sb)) (log C st))
+                         (tagged s (a_mbox (actors C st a))) (tagged s (a_got (actors C st a)))
+                         (a_alive (actors C st a))).
+          { unfold absv. rewrite E, P, (skipn_nth_cons _ _ _ _ Hm). reflexivity. }
+          rewrite A0. unfold absv, set_task. cbn [tasks actors log]. rewrite updf_same.
+          cbn [s_pc s_cursor proj Spec.crun Spec.cstep c_pc c_backlog c_mbox c_got c_alive].
+          rewrite Lg. reflexivity.
+        * apply Nat.leb_gt in Le. inversion H; subst; clear H. split; [|apply Ok'; reflexivity].
+          destruct (skipn (s_cursor C sb) (log C st)) as [|m b] eqn:Sk.
+          { exfalso. assert (Hz : length (skipn (s_cursor C sb) (log C st)) = 0) by (rewrite Sk; reflexivity).
+            rewrite skipn_length in Hz. lia. }
+          assert (Lg : lagging (Some cap) (m :: b) = true).
+          { rewrite <- Sk. unfold lagging. rewrite skipn_length. apply Nat.ltb_lt. lia. }
+          assert (A0 : absv C s a st = mkCore AIdle (m :: b)
+                         (tagged s (a_mbox (actors C st a))) (tagged s (a_got (actors C st a)))
+                         (a_alive (actors C st a))).
+          { unfold absv. rewrite E, P, Sk. reflexivity. }
+          rewrite A0. unfold absv, set_task. cbn [tasks actors log]. rewrite updf_same.
+          cbn [s_pc s_cursor proj Spec.crun Spec.cstep c_pc c_backlog c_mbox c_got c_alive].
+          rewrite Lg. rewrite <- Sk. unfold keep, lastn. rewrite skipn_length, skipn_skipn'.
+          do 3 f_equal. lia.
+      + inversion H as [H']. clear H.
+        assert (Hst' : tasks C st' s = tasks C st s /\ actors C st' a = actors C st a /\ log C st' = log C st).
+        { destruct (Nat.leb (tail C st - s_cursor C sb) cap);
+            [destruct (nth_error (ring C st) (length (ring C st) - (tail C st - s_cursor C sb))); [|discriminate]|];
+            inversion H'; subst; cbn; (split; [|split; reflexivity]);
+            apply updf_other; apply N.eqb_neq; apply N.eqb_neq in Es; congruence. }
+        destruct Hst' as (Ht & Ha & Hlg). split.
+        * cbn. f_equal. symmetry. apply absv_eq_tasks_actors; assumption.
+        * unfold okfor in *. rewrite Ht. exact Ok.
+    - (* LCast *)
+      destruct (tasks C st s') as [sb|] eqn:E; [|discriminate].
+      destruct (s_pc C sb) eqn:P; try discriminate.
+      cbn [proj]. destruct (N.eqb s' s) eqn:Es.
+      + apply N.eqb_eq in Es. subst s'.
+        pose proof Ok as Ok0. unfold okfor in Ok0. rewrite E in Ok0. destruct Ok0 as [Ha Hcv].
+        destruct (cv (s_conv C sb) m) as [r|] eqn:Cv.
+        * destruct (a_alive (actors C st (s_actor C sb))) eqn:Al; inversion H; subst; clear H.
+          -- split.
+             ++ cbn. unfold absv. rewrite E, P. cbn. rewrite Cv, Al. rewrite !updf_same. cbn.
+                rewrite tagged_app, tagged_one_same. reflexivity.
+             ++ unfold okfor. cbn. rewrite updf_same. cbn. split; reflexivity.
+          -- split.
+             ++ cbn. unfold absv. rewrite E, P. cbn. rewrite Cv, Al. rewrite !updf_same. cbn. reflexivity.
+             ++ unfold okfor. cbn. rewrite updf_same. cbn. split; reflexivity.
+        * inversion H; subst; clear H. split.
+          -- cbn. unfold absv. rewrite E, P. cbn. rewrite Cv. rewrite !updf_same. cbn. reflexivity.
+          -- unfold okfor. cbn. rewrite updf_same. cbn. split; reflexivity.
+      + assert (Hne : N.eqb s s' = false) by (apply N.eqb_neq; apply N.eqb_neq in Es; congruence).
+        destruct (cv (s_conv C sb) m) as [r|] eqn:Cv.
+        * destruct (a_alive (actors C st (s_actor C sb))) eqn:Al; inversion H; subst; clear H.
+          -- split.
+             ++ cbn. f_equal. unfold absv. cbn. rewrite (updf_other _ _ _ _ _ Hne).
+                unfold updf. destruct (N.eqb a (s_actor C sb)) eqn:Ea.
+                ** apply N.eqb_eq in Ea. subst a. cbn. rewrite tagged_app, (tagged_one_other _ _ _ Es), app_nil_r, Al.
+                   destruct (actors C st (s_actor C sb)); reflexivity.
+                ** reflexivity.
+             ++ unfold okfor in *. cbn. rewrite (updf_other _ _ _ _ _ Hne). exact Ok.
+          -- split.
+             ++ cbn. f_equal. unfold absv. cbn. rewrite (updf_other _ _ _ _ _ Hne). reflexivity.
+             ++ unfold okfor in *. cbn. rewrite (updf_other _ _ _ _ _ Hne). exact Ok.
+        * inversion H; subst; clear H. split.
+          -- cbn. f_equal. unfold absv. cbn. rewrite (updf_other _ _ _ _ _ Hne). reflexivity.
+          -- unfold okfor in *. cbn. rewrite (updf_other _ _ _ _ _ Hne). exact Ok.
+    - (* LHandle *)
+      destruct (a_alive (actors C st a')) eqn:Al; [|discriminate].
+      destruct (a_mbox (actors C st a')) as [|[s'' r] q] eqn:M; [discriminate|].
+      destruct (N.eqb s'' s') eqn:Ess; [|discriminate]. apply N.eqb_eq in Ess. subst s''.
+      inversion H; subst; clear H.
+      assert (Okt : okfor s a c (set_actor C st a' (mkActor true q (a_got (actors C st a') ++ [(s', r)]))) t).
+      { unfold okfor in *. cbn. exact Ok. }
+      split; [|exact Okt]. cbn [proj]. destruct (N.eqb s' s) eqn:Es.
+      + apply N.eqb_eq in Es. subst s'.
+        destruct (v_tag _ I a' s r) as (sb & E & Hact). { rewrite M. left. reflexivity. }
+        unfold okfor in Ok. rewrite E in Ok. destruct Ok as [Ha _]. rewrite Hact in Ha. subst a'.
+        cbn. unfold absv. cbn. rewrite updf_same, E. cbn. rewrite Al, M, tagged_cons_same, tagged_app, tagged_one_same.
+        reflexivity.
+      + cbn. f_equal. unfold absv. cbn. unfold updf. destruct (N.eqb a a') eqn:Ea.
+        * apply N.eqb_eq in Ea. subst a'. cbn. rewrite M, Al, (tagged_cons_other _ _ _ _ Es), tagged_app, (tagged_one_other _ _ _ Es), app_nil_r.
+          reflexivity.
+        * reflexivity.
+    - (* LStop *)
+      destruct (a_alive (actors C st a')) eqn:Al; [|discriminate]. inversion H; subst; clear H.
+      split; [|unfold okfor in *; cbn; exact Ok].
+      cbn [proj]. destruct (N.eqb a' a) eqn:Ea.
+      + apply N.eqb_eq in Ea. subst a'. cbn. unfold absv. cbn. rewrite updf_same. cbn. rewrite Al.
+        destruct (tasks C st s); reflexivity.
+      + cbn. f_equal. unfold absv. cbn. rewrite updf_other; [reflexivity|].
+        apply N.eqb_neq. apply N.eqb_neq in Ea. congruence.
+  Qed.
+
+  Lemma sim_run_gen : forall s a c ls suffix (st st' : state),
+    VInv st -> okfor s a c st (ls ++ suffix) -> run st ls = Some st' ->
+    crun1 (cv c) (absv C s a st) (projs C s a ls) = Some (absv C s a st') /\ VInv st'
+    /\ okfor s a c st' suffix.
+  Proof.
+    intros s a c. induction ls as [|l t IH]; intros suffix st st' I Ok H; cbn in H.
+    - inversion H; subst. split; [reflexivity|]. split; assumption.
+    - destruct (step st l) as [st1|] eqn:E; [|discriminate].
+      destruct (sim_step s a c st st1 l (t ++ suffix) I Ok E) as [S1 Ok1].
+      pose proof (vinv_step _ _ _ I E) as I1.
+      destruct (IH _ _ _ I1 Ok1 H) as (S2 & I2 & Ok2). split; [|split; assumption].
+      unfold projs. cbn [flat_map]. rewrite crun_app, S1. exact S2.
+  Qed.
+
+  Lemma sim_run : forall s a c ls (st st' : state),
+    VInv st -> okfor s a c st ls -> run st ls = Some st' ->
+    crun1 (cv c) (absv C s a st) (projs C s a ls) = Some (absv C s a st') /\ VInv st'.
+  Proof.
+    intros s a c ls st st' I Ok H. rewrite <- (app_nil_r ls) in Ok.
+    destruct (sim_run_gen s a c ls [] st st' I Ok H) as (S1 & I1 & _). split; assumption.
+  Qed.
+
+  Lemma absv_init : forall s a, absv C s a (init C) = ainit.
+  Proof. reflexivity. Qed.
+
+  Theorem v1_refines : forall ls st s a c, run (init C) ls = Some st ->
+    conv_of C s ls = Some (a, c) ->
+    crun1 (cv c) ainit (projs C s a ls) = Some (absv C s a st).
+  Proof.
+    intros ls st s a c H Hc. rewrite <- (absv_init s a).
+    apply (sim_run s a c ls (init C) st vinv_init); [|exact H].
+    unfold okfor. cbn. intros a' c' E. rewrite Hc in E. inversion E; subst. split; reflexivity.
+  Qed.
+
+  (* label-level vocabulary agrees with the abstract one *)
+  Lemma apubs_on_projs : forall s a ls, apubs_on (projs C s a ls) = pubs_on C ls.
+  Proof.
+    intros s a. induction ls as [|l t IH]; [reflexivity|].
+    unfold projs in *. cbn [flat_map]. destruct l; cbn [proj pubs_on].
+    - cbn. rewrite IH. reflexivity.
+    - destruct (N.eqb s0 s); cbn; exact IH.
+    - destruct (N.eqb s0 s); cbn; exact IH.
+    - destruct (N.eqb s0 s); cbn; exact IH.
+    - destruct (N.eqb s0 s); cbn; exact IH.
+    - destruct (N.eqb a0 a); cbn; exact IH.
+  Qed.
+
+  Lemma apubs_projs : forall s a ls, apubs (projs C s a ls) = pubs_after C s ls.
+  Proof.
+    intros s a. induction ls as [|l t IH]; [reflexivity|].
+    unfold projs in *. cbn [flat_map]. destruct l; cbn [proj pubs_after].
+    - cbn. exact IH.
+    - destruct (N.eqb s0 s); cbn; [apply apubs_on_projs|exact IH].
+    - destruct (N.eqb s0 s); cbn; exact IH.
+    - destruct (N.eqb s0 s); cbn; exact IH.
+    - destruct (N.eqb s0 s); cbn; exact IH.
+    - destruct (N.eqb a0 a); cbn; exact IH.
+  Qed.
+
+  Lemma conv_of_task : forall ls (st st' : state) s a c, VInv st -> okfor s a c st ls ->
+    run st ls = Some st' -> forall sb, tasks C st' s = Some sb -> s_actor C sb = a /\ s_conv C sb = c.
+  Proof.
+    induction ls as [|l t IH]; intros st st' s a c I Ok H sb E; cbn in H.
+    - inversion H; subst. unfold okfor in Ok. rewrite E in Ok. exact Ok.
+    - destruct (step st l) as [st1|] eqn:S1; [|discriminate].
+      destruct (sim_step s a c st st1 l t I Ok S1) as [_ Ok1].
+      exact (IH st1 st' s a c (vinv_step _ _ _ I S1) Ok1 H sb E).
+  Qed.
+
+  Lemma received_absv : forall ls st s a c, run (init C) ls = Some st -> conv_of C s ls = Some (a, c) ->
+    received C st s = match tasks C st s with Some _ => c_got (absv C s a st) | None => [] end.
+  Proof.
+    intros ls st s a c H Hc. unfold received, absv.
+    destruct (tasks C st s) as [sb|] eqn:E; [|reflexivity].
+    assert (Ok : okfor s a c (init C) ls).
+    { unfold okfor. cbn. intros a' c' E'. rewrite Hc in E'. inversion E'; subst. split; reflexivity. }
+    destruct (conv_of_task ls _ _ s a c vinv_init Ok H sb E) as [-> _]. reflexivity.
+  Qed.
+
+  (* ---------- property theorems ---------- *)
+  Theorem v1_subsequence : forall ls st s a c, run (init C) ls = Some st ->
+    conv_of C s ls = Some (a, c) ->
+    sublist (received C st s) (filter_map (cv c) (pubs_after C s ls)).
+  Proof.
+    intros ls st s a c H Hc. rewrite (received_absv ls st s a c H Hc).
+    destruct (tasks C st s); [|apply sublist_nil_l].
+    rewrite <- (apubs_projs s a ls).
+    eapply sub1_subsequence. eapply v1_refines; eassumption.
+  Qed.
+
+  Theorem v1_inert : forall ls1 ls2 st1 st2 s a c,
+    run (init C) ls1 = Some st1 -> run (init C) ls2 = Some st2 ->
+    conv_of C s ls1 = Some (a, c) -> conv_of C s ls2 = Some (a, c) ->
+    projs C s a ls1 = projs C s a ls2 ->
+    absv C s a st1 = absv C s a st2.
+  Proof.
+    intros ls1 ls2 st1 st2 s a c H1 H2 C1 C2 P.
+    pose proof (v1_refines _ _ _ _ _ H1 C1) as R1. pose proof (v1_refines _ _ _ _ _ H2 C2) as R2.
+    rewrite P in R1. rewrite R1 in R2. inversion R2. reflexivity.
+  Qed.
+
+  Theorem v1_frame : forall ls l st st' s a c, run (init C) ls = Some st -> step st l = Some st' ->
+    conv_of C s (ls ++ [l]) = Some (a, c) -> proj C s a l = [] ->
+    absv C s a st' = absv C s a st.
+  Proof.
+    intros ls l st st' s a c H S1 Hc P.
+    assert (Ok : okfor s a c (init C) (ls ++ [l])).
+    { unfold okfor. cbn. intros a' c' E'. rewrite Hc in E'. inversion E'; subst. split; reflexivity. }
+    destruct (sim_run_gen s a c ls [l] _ _ vinv_init Ok H) as (_ & I1 & Ok1).
+    destruct (sim_step s a c st st' l [] I1 Ok1 S1) as [S2 _].
+    rewrite P in S2. cbn in S2. inversion S2. reflexivity.
   Qed.
 End P.
